@@ -264,7 +264,7 @@ def _run_case(case):
                     viol.append({"clause": "listing-failed", "subject": "commands-before-data-connection", "detail": f"raw session: {type(e).__name__}"})
                 peer.close()
             await asyncio.sleep(1)
-            await asyncio.wait_for(server.close(), 1e4)
+            await common.close_server(server)
 
         world.run(main())
         gc.collect()
